@@ -50,7 +50,7 @@ FULL = {
     "res_seq": [-999, -1, 0, 1, 9999, 10000, 12345, -1000],
     "icode": ["", "A"],
     "x": [0.0, -0.0004, 1.2345, -999.999, 9999.999, -1000.123, 10000.5,
-          99999.0, -99999.0],
+          12345.678, 99999.0, -99999.0],
     "charge": [0.0, -1.2345, 12.3456, -0.00004],
     "radius": [0.0, 1.5, 12.3456],
 }
@@ -64,7 +64,7 @@ REDUCED = {
     "icode": ["", "A"],
     "x": [1.2345, -999.999, 10000.5],
     "y": [0.0, 9999.999, -1000.123],
-    "z": [-0.0004, 1.2345, 99999.0],
+    "z": [-0.0004, 12345.678, 99999.0],
     "charge": [0.0, -1.2345, 12.3456],
     "radius": [0.0, 1.5, 12.3456],
 }
